@@ -11,6 +11,9 @@ VOCAB = [('freq', 440.0), ('amp', 0.1), ('pan', 0.0), ('out', 0), ('foo', 3.0),
          ('db', -20.0), ('velocity', 64.0), ('index', 1.0)]
 
 
+NODESC = 'c14_nodesc'      # never added to the SynthDescLib
+
+
 def instruments(rng, n=8):
     """[{'name', 'controls': [(name, default)], 'gate': bool, 'variants'}].
     Every instrument has a `tag` control (unique per event: makes the score
@@ -298,6 +301,11 @@ def history_steps(rng, insts, tags, offgrid):
         for key in dl:
             state[k].pop(key, None)
         state[k].update(st)
+        if 'freq' in state[k] and 'harmonic' in state[k]:
+            # kept out everywhere: harmonic together with an explicit freq
+            state[k].pop('harmonic')
+            st.pop('harmonic', None)
+            dl.append('harmonic')
         steps.append({'wait': wait, 'event': dict(state[k]), 'how': 'object',
                       'obj': k, 'op': op, 'src': src, 'set': st, 'del': dl,
                       'prev_tags': list(lineage[k])})
@@ -321,7 +329,12 @@ def play_program(rng, insts, tags):
     for _ in range(rng.randint(1, 5)):
         inst = rng.choice(insts)
         ev = event_spec(rng, inst, next(tags), offgrid)
-        if rng.random() < 0.05:
+        if rng.random() < 0.03:
+            # a definition the SynthDescLib does not know (sent, not added):
+            # Event help: freq, amp, pan, out are sent, a gate is assumed
+            ev['instrument'] = NODESC
+            ev.pop('variant', None)
+        elif rng.random() < 0.05:
             ev['variant'] = rng.choice(['va', 'zz'])
         wait = rng.choice(OFF_DUR if offgrid else GRID_DUR + [0, 0])
         how = rng.choice(['event.play', 'play(dict)', 'play(**kw)',
@@ -477,7 +490,18 @@ def composition(rng, insts, tags, offgrid, depth=0, allow_mono=True,
     if kind == 'pdur':
         child = composition(rng, insts, tags, offgrid, depth + 1, allow_mono,
                             allow_pdur)
-        total = me.timeline(child).total
+        ctl = me.timeline(child)
+        total = ctl.total
+        if offgrid:
+            # off the grid the documented tolerance (0.001) of the cut must not
+            # decide: d lies in the middle of a gap between two wake-ups of a
+            # sequential child (a parallel child also wakes at child ends)
+            if not ctl.sequential:
+                return child
+            wakes = sorted({t for t, _ in ctl.items} | {total})
+            gaps = [(a + b) / 2 for a, b in zip(wakes, wakes[1:])
+                    if b - a > 0.04]
+            return ['pdur', rng.choice(gaps + [total + 0.5]), child]
         steps = int(total * 16)
         d = rng.choice([rng.randint(1, max(1, steps)) / 16.0,
                         rng.randint(1, max(1, steps + 8)) / 16.0,
@@ -565,11 +589,56 @@ def reuse_case(rng, insts, tags):
     return case
 
 
+def special_case(rng, insts, tags):
+    """Event forms that end or suspend a stream: the event type 'rest', a None
+    delta (ends the player after the event), an infinite dur (the event is
+    played, the player is never due again; no gate-off unless sustain is
+    given)."""
+    form = rng.choice(['type-rest', 'type-rest', 'delta-none', 'dur-inf'])
+    pb = pbind_spec(rng, insts, tags, False, rests=False)
+    m = pb[1]
+    n = len(me.values(m['tag']))
+    k = rng.randint(0, n - 1)
+    if form == 'type-rest':
+        col = ['rest' if i == k or rng.random() < 0.3 else 'note'
+               for i in range(n)]
+        m['type'] = _as_pattern(rng, col)
+        pat = pb
+        if rng.random() < 0.4:
+            pat = ['ppar', [pb, pbind_spec(rng, insts, tags, False)]]
+        elif rng.random() < 0.3:
+            pat = ['pdelta', 0.25, pb]
+    elif form == 'delta-none':
+        m['delta'] = _as_pattern(rng, [None if i == k else
+                                       rng.choice([0.25, 0.5, 1])
+                                       for i in range(n)])
+        pat = pb
+    else:
+        m.pop('delta', None)
+        m.pop('stretch', None)
+        m['dur'] = _as_pattern(rng, ['inf' if i == k else
+                                     rng.choice([0.25, 0.5, 1])
+                                     for i in range(n)])
+        if rng.random() < 0.5:
+            m['sustain'] = rng.choice([0.5, 1, 2.5])
+        else:
+            m.pop('sustain', None)
+        pat = pb
+    return {'pattern': pat, 'special': form, 'offgrid': False,
+            'latency': rng.choice([0, 0.05, 0.25]),
+            'where': rng.choice(['main', 'routine-system', 'routine-tempo']),
+            'clock': rng.choice(['default', 'system', 'tempo']),
+            'start': rng.choice([0.25, 1, 2.5]), 'proto': None}
+
+
 def timeline_case(rng, insts, tags):
-    if rng.random() < 0.3:
+    r = rng.random()
+    if r < 0.07:
+        return special_case(rng, insts, tags)
+    if r < 0.35:
         return reuse_case(rng, insts, tags)
     offgrid = rng.random() < 0.25
-    comp = composition(rng, insts, tags, offgrid, allow_pdur=not offgrid)
+    comp = composition(rng, insts, tags, offgrid)
     return {
         'pattern': comp, 'offgrid': offgrid,
         'latency': rng.choice([0, 0, 0.05, 0.2, 0.25, 0.015625, 1]),
